@@ -8,10 +8,10 @@ TRUSTED = [
     "Model/IsoParser.lean is a hand model of src/dateutil/parser/isoparser.py; tied by the iso.parse / iso.date / iso.time / iso.tz correspondence on every rendered string (str and bytes inputs)",
     "Spec/IsoForms.lean `render` is the printer of the documented forms; `denote` its meaning. Both are cross-checked on every run against Python's own isocalendar()/tm_yday/replace() (the expected value of a case is computed twice, in Lean and in Python)",
     "datetime()/date()/time() construction and date +- timedelta are modelled by validity predicates and ordinal range checks",
-    "harness/translate_bytes.py (BytesPy translator): _parse_digits, _parse_tzstr, _parse_isodate_common, _calculate_weekdate, _parse_isodate_uncommon, _parse_isodate, _parse_isotime and the body of isoparse are RE-TRANSLATED from /repo's isoparser.py into Generated/IsoKernels.lean on every run (141 of the module's 164 statements); anything outside the fragment aborts with a named construct (broken tie)",
-    "Proofs/IsoGenEq.lean proves the translated _parse_digits, _parse_tzstr, _calculate_weekdate, _parse_isodate_common, _parse_isodate_uncommon, _parse_isodate EQUAL to the hand model for all inputs (92 of 164 statements), so the `_gen` theorems are statements about the code as it is now; the translated _parse_isotime loop and isoparse body are tied by the per-run differential validation only (isogen.* ops vs the implementation on the whole stream), the equality with the hand model is not proved",
-    "named primitives of the translator (Model/BytesPy.lean), trusted with their documented Python meaning and exercised by the isogen.* validation: slice/len/`in` on bytes, bytes.isdigit, int(bytes) (whitespace, sign, PEP 515 underscores), the fraction regex as `fractionMatch`, list get/set (in-range), date()/isocalendar()/timedelta arithmetic on ordinals, datetime(*components), try/except on the exception kind; the `while` loop bound (8 iterations) is checked: running out of fuel is a distinguished error the implementation never raises",
-    "still hand-modelled: _takes_ascii, isoparser.__init__, and the three thin wrappers parse_isodate / parse_isotime / parse_tzstr (23 of 164 statements)",
+    "harness/translate_bytes.py (BytesPy translator): _parse_digits, _parse_tzstr, _parse_isodate_common, _calculate_weekdate, _parse_isodate_uncommon, _parse_isodate, _parse_isotime, the bodies of isoparse, parse_isodate, parse_isotime and parse_tzstr are RE-TRANSLATED from /repo's isoparser.py into Generated/IsoKernels.lean on every run (150 of the module's 164 statements); anything outside the fragment aborts with a named construct (broken tie)",
+    "Proofs/IsoGenEq.lean + Proofs/IsoGenLoop.lean prove EVERY translated function equal to the hand model for all inputs (incl. the `while` loop of _parse_isotime by a simulation lemma: 8 units of fuel suffice), so every audited `_gen` theorem is a statement about the translation of today's source; a behaviour-changing edit breaks a named `_eq`/`sim_*` obligation (or the translation itself)",
+    "named primitives of the translator (Model/BytesPy.lean), trusted with their documented Python meaning and exercised by the isogen.* validation on every run: slice/len/`in` on bytes, bytes.isdigit, int(bytes) (whitespace, sign, PEP 515 underscores), the fraction regex as `fractionMatch`, list get/set (in-range), date()/isocalendar()/timedelta arithmetic on ordinals, date(*l)/time(*l)/datetime(*l), try/except on the exception kind",
+    "still hand-modelled: the `_takes_ascii` decorator and isoparser.__init__ (14 of 164 statements); C07.input_kinds_equivalent states the str/bytes/stream equivalence over the hand model of `_takes_ascii`, and the oracle exercises str, bytes and StringIO inputs on every run",
 ]
 ASSUMPTIONS = [
     "the separator between date and time is a single non-digit ASCII byte (digit separators are ambiguous with basic forms and outside the property)",
